@@ -369,7 +369,7 @@ def correspondence(ctx):
         bump(out, "store", r["store_kind"])
         if r["parallel"]:
             bump(out, "max_workers", r["mw"])
-            bump(out, "chunksize", r["par_kw"].get("chunksize"))
+            bump(out, "chunksize", str(r["par_kw"].get("chunksize")))
             bump(out, "completion_order", "permuted" if nonident else "input-order")
         for m, o in r["spec"]["outcome"].items():
             bump(out, "outcome", o)
